@@ -1,5 +1,5 @@
 """Property -> rules mapping."""
-from .rules import cfg, det, fmtparse, hdr, hyg, rawid
+from .rules import cfg, det, fmtdec, fmtparse, hdr, hyg, rawid
 
 PROPS = {}
 
@@ -86,3 +86,7 @@ prop(
         ],
     },
 )
+
+
+prop("C05", [fmtdec.rule_dec_cover, fmtdec.rule_transparent_call, fmtdec.rule_transparent_siblings], meta={"explanation": "wip"})
+prop("C02", [fmtdec.rule_tpl_verb, fmtdec.rule_binder_align, fmtdec.rule_pointer_deref, fmtdec.rule_rename_all], meta={"explanation": "wip"})
